@@ -72,6 +72,25 @@ def oracle(ck, base, mode):
                     ck.violation("gradient direction disagrees with the finite-difference gradient of the traveltimes",
                                  {"case": _enc(b), "mode": mode, "median_angle_deg": float(np.median(ang)),
                                   "max_angle_deg": float(ang.max())})
+        # homogeneous, equal spacings, source buried inside the model: every vector more than 2.5 cells from the source
+        # points away from it (within about 20 degrees; 30 allowed here) - a per-node test, since a wrong sign recorded by
+        # one operator in one sweep direction affects a thin sheet of nodes only
+        if sane and b["meta"].get("targeted") == "radial" and b["nsweep"] >= 2:
+            dd = b["meta"]["d"]
+            srcn = np.array([b["meta"]["src"][a] / dd[a] for a in range(nd)])
+            idx = np.indices(r1["tt"].shape).astype(float)
+            rad = np.stack([(idx[a] - srcn[a]) * dd[a] for a in range(nd)], axis=-1)
+            rn = np.sqrt((rad ** 2).sum(-1))
+            far = (np.sqrt(sum((idx[a] - srcn[a]) ** 2 for a in range(nd))) > 2.5) & (nrm > 0)
+            cosang = (g[far] * rad[far]).sum(-1) / rn[far]
+            ang = np.degrees(np.arccos(np.clip(cosang, -1, 1)))
+            ck.cov["radial_angle_max"] = max(ck.cov.get("radial_angle_max", 0.0), float(ang.max()))
+            if (ang > 30.0).any():
+                worst = np.argwhere(far)[int(np.argmax(ang))].tolist()
+                ck.violation("gradient vector points more than 30 degrees away from the radial direction in a homogeneous "
+                             "equal-spacing model", {"case": _enc(b), "mode": mode, "n_nodes": int((ang > 30).sum()),
+                                                     "worst_angle_deg": float(ang.max()), "node": worst,
+                                                     "vector": g[tuple(worst)].tolist()})
         if g.shape != r1["tt"].shape + (nd,):
             ck.violation("gradient array not on the traveltime nodes", {"case": _enc(b), "shape": list(g.shape)})
         # zero exactly at a node coinciding with the source (when sane)
@@ -170,6 +189,14 @@ def run(tier):
         base.append({"slow": np.full(sh, 0.5), "dz": d[0], "dx": d[1], "dy": d[2], "zs": src[0], "xs": src[1], "ys": src[2],
                      "nsweep": 3, "grad": 0, "meta": {"shape": sh, "d": d, "medium": "homog", "src": src, "cls": "interior",
                                                       "targeted": "aniso3d"}})
+    for sh, src in [((11, 11, 11), (5.0, 5.0, 5.0)), ((11, 11, 11), (5.3, 4.6, 5.5)), ((9, 12, 10), (6.2, 3.4, 7.7)),
+                    ((15, 15), (7.4, 6.7)), ((15, 15), (7.0, 7.0))]:
+        nd_ = len(sh)
+        t = {"slow": np.full(sh, 0.5), "dz": 1.0, "dx": 1.0, "zs": src[0], "xs": src[1], "nsweep": 3, "grad": 0,
+             "meta": {"shape": sh, "d": (1.0,) * nd_, "medium": "homog", "src": src, "cls": "interior", "targeted": "radial"}}
+        if nd_ == 3:
+            t.update(dy=1.0, ys=src[2])
+        base.append(t)
     for d in [(1.0, 3.0), (3.0, 1.0), (0.25, 1.0)]:
         sh = (6, 6)
         src = (0.4 * d[0], 0.6 * d[1])
